@@ -88,6 +88,7 @@ pub fn base_spec(u: Arc<Universe>, steps: Vec<Step>) -> RunSpec {
         faults: vec![Fault::Honest],
         fault_window: 0,
         explore_orders: true,
+        record_held: false,
     }
 }
 
